@@ -130,6 +130,15 @@ class Part(object):
 _DEVNULL_HANDLER = []
 _THIRD_PARTY = r"(jsonschema|jsonschema_specifications|referencing|attr|attrs|rpds|icontract|asttokens|numpy|atheris|typing_extensions|six)(\..*)?$"
 _OUR_FILTERS = []
+_SAVED_DECIMAL = []
+# 'subprocess:<interpreter flags>:<environment>': the shard runs in a fresh interpreter started with flags / an
+# environment an application may legitimately run under (optimised byte code without asserts and docstrings, bytes
+# warnings as errors, another hash seed, the C locale without UTF-8 mode)
+_SUBPROCESS_PROFILES = ["subprocess:-O:", "subprocess:-OO:", "subprocess:-bb:", "subprocess::PYTHONHASHSEED=4242",
+                        "subprocess::LANG=C,LC_ALL=C,PYTHONUTF8=0", "subprocess:-OO:PYTHONHASHSEED=77,LANG=C,LC_ALL=C"]
+_DECIMAL_PROFILES = ["decimal:%s:%d" % (r, p) for r, p in zip(
+    ("ROUND_DOWN", "ROUND_UP", "ROUND_FLOOR", "ROUND_HALF_DOWN", "ROUND_05UP", "ROUND_CEILING", "ROUND_HALF_UP", "ROUND_HALF_EVEN"),
+    (28, 29, 34, 28, 60, 28, 31, 100))]
 
 
 def _set_ambient(profile):
@@ -157,6 +166,19 @@ def _set_ambient(profile):
     # the wrapper through which the monitors call the library, so that the harness's own dependencies are not affected
     from . import obs as _obs
     _obs.WARNINGS_AS_ERRORS = profile == "warnings-as-errors"
+    # 'decimal:<rounding>:<prec>': the calling thread's ambient decimal context is what an application doing its own
+    # money / measurement arithmetic may have set (C19 quantifies every rounding mode with at least the default
+    # precision; traps and exponent limits stay at their defaults).  Restored by the next _set_ambient().
+    import decimal
+    if not _SAVED_DECIMAL:
+        _SAVED_DECIMAL.append(decimal.getcontext().copy())
+    if profile.startswith("decimal:"):
+        _, rounding, prec = profile.split(":")
+        decimal.setcontext(decimal.Context(prec=int(prec), rounding=rounding))
+    else:
+        cur = decimal.getcontext()
+        if (cur.prec, cur.rounding) != (_SAVED_DECIMAL[0].prec, _SAVED_DECIMAL[0].rounding):
+            decimal.setcontext(_SAVED_DECIMAL[0].copy())
     if hasattr(warnings, "_filters_mutated"):
         warnings._filters_mutated()
 
@@ -213,7 +235,13 @@ def _exercise_entry_points():
 
 def _run_shard_ambient(mod, fname, shard, P, ambient):
     if ambient != "default":
-        P.stratum("shards-run-with:" + ambient)
+        P.stratum("shards-run-with:" + ("ambient-decimal-context" if ambient.startswith("decimal:") else
+                                        "other-interpreter-flags-or-environment" if ambient.startswith("subprocess:") else ambient))
+        if ambient.startswith("decimal:") or ambient.startswith("subprocess:"):
+            P.stratum("shards-run-with:" + ambient)
+        if ambient.startswith("subprocess:"):
+            P.stratum("shards-run-with:__debug__=%s,docstrings=%s,hashseed=%s,LANG=%s" % (
+                __debug__, _shard_entry.__doc__ is not None or Part.__doc__ is not None, os.environ.get("PYTHONHASHSEED"), os.environ.get("LANG")))
         P.ambient = ambient
     if ambient == "debug-logging":
         _exercise_entry_points()
@@ -247,9 +275,64 @@ def _run_shard_body(mod, fname, shard, P):
         mod.check_case(P, case)
 
 
+def _subprocess_cmd(profile, tail):
+    _, flags, envs = profile.split(":", 2)
+    env = dict(os.environ)
+    env["VMON_IN_SUBSHARD"] = profile
+    for kv in [x for x in envs.split(",") if x]:
+        k, _, v = kv.partition("=")
+        env[k] = v
+    return [sys.executable] + [f for f in flags.split(",") if f] + ["-B", "-m", "vmon.runner"] + tail, env
+
+
+def _shard_in_subprocess(args):
+    """Run the shard in a fresh interpreter with the profile's flags and environment; the Part comes back pickled
+    through a file.  Anything that goes wrong with the transport is 'inconclusive', never a verdict."""
+    import pickle
+    import tempfile
+    profile = args[4]
+    d = tempfile.mkdtemp(prefix="vmon-subshard-")
+    try:
+        fin, fout = os.path.join(d, "in.pkl"), os.path.join(d, "out.pkl")
+        with open(fin, "wb") as f:
+            pickle.dump(args, f, 2)
+        cmd, env = _subprocess_cmd(profile, ["--subshard", fin, fout])
+        p = subprocess.run(cmd, cwd=VERIF, env=env, stdout=subprocess.PIPE, stderr=subprocess.STDOUT, timeout=3300)
+        if p.returncode != 0 or not os.path.exists(fout):
+            P = Part()
+            P.notes.append("INCONCLUSIVE:shard %s%r under %s: interpreter exited %d: %s" % (
+                args[1], tuple(args[2])[:3], profile, p.returncode, p.stdout.decode("utf-8", "replace")[-600:]))
+            return P
+        with open(fout, "rb") as f:
+            return pickle.load(f)
+    except Exception:
+        P = Part()
+        P.notes.append("INCONCLUSIVE:shard %s%r under %s: %s" % (args[1], tuple(args[2])[:3], profile, traceback.format_exc()[-600:]))
+        return P
+    finally:
+        import shutil
+        shutil.rmtree(d, ignore_errors=True)
+
+
+def _subshard_main(fin, fout):
+    import pickle
+    with open(fin, "rb") as f:
+        args = pickle.load(f)
+    # the state a forked worker inherits from the check process: library imported (and on sys.path), nothing else
+    bootstrap.lib()
+    if args[3]:
+        _apply_mutant(importlib.import_module(args[0]), args[3])
+    P = _shard_entry(args)
+    with open(fout, "wb") as f:
+        pickle.dump(P, f, 2)
+    return 0
+
+
 def _shard_entry(args):
     modname, fname, shard, mutant = args[:4]
     ambient = args[4] if len(args) > 4 else "default"
+    if ambient.startswith("subprocess:") and os.environ.get("VMON_IN_SUBSHARD") != ambient:
+        return _shard_in_subprocess(args)
     mod = importlib.import_module(modname)
     # (an in-memory mutant applied in the parent is inherited through fork)
     P = Part()
@@ -320,8 +403,16 @@ class Run(object):
         # ... and every third one in a freshly started thread (not the thread that imported the package; own default
         # decimal context, own thread-local storage)
         # ... and every fourth one with warnings issued from the library's own modules turned into errors
-        args = [(module or self.mod.__name__, fname, tuple(s), self.mutant, ("default", "debug-logging", "fresh-thread", "warnings-as-errors")[i % 4])
-                for i, s in enumerate(shards)]
+        # ... and every fifth one under an ambient decimal context of the caller's (another rounding mode, a precision
+        # of at least the default one)
+        # ... and every eleventh one in a fresh interpreter started with other flags / another environment
+        def _profile(i):
+            if i % 11 == 10:
+                return _SUBPROCESS_PROFILES[(i // 11 + self.seed) % len(_SUBPROCESS_PROFILES)]
+            if i % 5 == 4:
+                return _DECIMAL_PROFILES[(i // 5) % len(_DECIMAL_PROFILES)]
+            return ("default", "debug-logging", "fresh-thread", "warnings-as-errors")[i % 5]
+        args = [(module or self.mod.__name__, fname, tuple(s), self.mutant, _profile(i)) for i, s in enumerate(shards)]
         if workers <= 1 and not fork:
             for a in args:
                 self.P.merge(_shard_entry(a))
@@ -505,6 +596,13 @@ def run_replay(pid, path):
     R = Run(pid, "replay", int(w.get("seed", 0)))
     R.mod = mod
     print("replaying %s: monitor=%s key=%s" % (path, w.get("monitor"), w.get("key")))
+    amb = (w.get("shard") or {}).get("ambient", "default")
+    if amb.startswith("subprocess:") and os.environ.get("VMON_IN_SUBSHARD") != amb:
+        # the witness was observed in an interpreter started with other flags / another environment: replay it there
+        cmd, env = _subprocess_cmd(amb, [pid, "--replay", path])
+        print("re-running the replay under %s" % amb)
+        sys.stdout.flush()
+        return subprocess.run(cmd, cwd=VERIF, env=env).returncode
     _set_ambient((w.get("shard") or {}).get("ambient", "default"))
     try:
         if hasattr(mod, "replay"):
@@ -565,6 +663,8 @@ def main(argv):
         return 2
     pid = argv[0]
     bootstrap.ensure_deps()
+    if pid == "--subshard":
+        return _subshard_main(argv[1], argv[2])
     if argv[1] == "--replay":
         return run_replay(pid, argv[2])
     if argv[1] == "selftest":
